@@ -121,11 +121,11 @@ def body():
                             xi = rb.coarse_local(m, e, node)
                             fo = rb.coarse_values(sp, e, xi, c)
                             d = float(np.abs(np.asarray(fo) - fb[:, q]).max())
-                            if d > worst:
+                            if not (d <= worst):   # NaN counts as a deviation
                                 worst, where = d, (b, q)
                     chk.count((m.id, vname, kind, "bary_rep"), m.n >= 2)
                     chk.cov["obligations_replayed"] += 1
-                    if worst > 1e-9:
+                    if not (worst <= 1e-9):   # NaN counts as a deviation
                         fail("bary:%s:pointwise" % kind, "%s function and its barycentric representation differ by %.3g at corner %d of barycentric element %d (%s)" % (
                             kind, worst, where[1], where[0], vname))
             # ---- (b) exact nodal tables on the whole grid
@@ -275,7 +275,7 @@ def body():
                             GA = np.abs(np.asarray(sparse.identity(sA, sA, sA).weak_form().to_dense()))
                             GB = np.abs(np.asarray(sparse.identity(sB, sB, sB).weak_form().to_dense()))[np.ix_(perm, perm)]
                             chk.count((m.id, kname, "relabel"), True)
-                            if np.abs(GA - GB).max() > 1e-10 * max(1e-3, GA.max()):
+                            if not (np.abs(GA - GB).max() <= 1e-10 * max(1e-3, GA.max())):   # NaN counts as a deviation
                                 fail("bc:relabel:%s" % kname, "the Gram matrix of the %s space changes by %.3g when elements are renumbered and locally rotated" % (kname, np.abs(GA - GB).max() / GA.max()))
                             rd.check_bary_conformity(sA, lambda a, d: fail("bc:%s:%s" % (kname, a), d), kname, kname)
             if mi < 3:
